@@ -57,6 +57,13 @@ func TestVerifC08(t *testing.T) {
 			out.Flush()
 		}
 	}
+	// gated: Tunlinkat issued while a Twalk to the same name is parked in the backend walk
+	for _, wga := range []bool{true, false} {
+		for _, dir := range []bool{true, false} {
+			out.Emit(vhgUnlinkVsWalk(wga, dir))
+			out.Flush()
+		}
+	}
 	nhist := 100
 	if thorough {
 		nhist = 800
